@@ -10,6 +10,12 @@ def sh(cmd, cwd, timeout=1200):
     return p.returncode, (p.stdout + p.stderr)
 
 def place_demo(wt, d, name):
+    cmd, where = _place_demo(wt, d, name)
+    readme = os.path.join(d, 'README.md')
+    if os.path.exists(readme) and '--features atari2600' in open(readme).read(): cmd = cmd.replace('cargo test --offline', 'cargo test --offline --features atari2600')
+    return cmd, where
+
+def _place_demo(wt, d, name):
     demo = open(os.path.join(d, 'demo.rs')).read()
     if 'use cc6502::' in demo or '#[path' in demo:
         os.makedirs(os.path.join(wt, 'tests'), exist_ok=True)
@@ -35,7 +41,7 @@ def main(d, checks):
         passed0 = rc0 == 0 and re.search(r'test result: ok\. [1-9]', out0) is not None
         meta['ran'].append(dict(step='demo on unchanged tree', cmd=cmd, passed=passed0, tail=out0[-300:] if not passed0 else ''))
         sh('git checkout -q -- . && git clean -fdq -e target', wt)
-        rc, out = sh('git apply %s' % os.path.join(d, 'patch.diff'), wt)
+        rc, out = sh('git apply %s || git apply --3way %s' % (os.path.join(d, 'patch.diff'), os.path.join(d, 'patch.diff')), wt)
         meta['ran'].append(dict(step='git apply patch.diff', ok=rc == 0))
         if rc != 0: meta['error'] = 'patch does not apply: ' + out[-200:]; return meta
         rc1, out1 = sh('cargo test --offline --lib 2>&1 | grep "test result"', wt)
